@@ -245,6 +245,9 @@ func same(a, b *Term) bool {
 	if a == b {
 		return true
 	}
+	if a.Sort.K == KFP && a.Op != OConst && b.Op != OConst {
+		return structEq(a, b, 12)
+	}
 	if a.Op == OConst && b.Op == OConst && a.Sort == b.Sort {
 		if a.Big != nil || b.Big != nil {
 			return a.Big != nil && b.Big != nil && a.Big.Cmp(b.Big) == 0
@@ -252,6 +255,40 @@ func same(a, b *Term) bool {
 		return a.Val == b.Val
 	}
 	return false
+}
+
+func structEq(a, b *Term, depth int) bool {
+	if a == b {
+		return true
+	}
+	if depth == 0 || a.Op != b.Op || a.Sort != b.Sort || len(a.Args) != len(b.Args) {
+		return false
+	}
+	switch a.Op {
+	case OConst:
+		if a.Big != nil || b.Big != nil {
+			return a.Big != nil && b.Big != nil && a.Big.Cmp(b.Big) == 0
+		}
+		return a.Val == b.Val
+	case OVar:
+		return false
+	case OApp:
+		if a.Name != b.Name {
+			return false
+		}
+	case OExtract:
+		if a.P1 != b.P1 || a.P2 != b.P2 {
+			return false
+		}
+	case OTable, OLinEq:
+		return false
+	}
+	for i := range a.Args {
+		if !structEq(a.Args[i], b.Args[i], depth-1) {
+			return false
+		}
+	}
+	return true
 }
 
 // Same reports syntactic identity (pointer or equal constants).
